@@ -25,6 +25,7 @@ type Profile struct {
 	DefBackPct     int      // share of ingresses with spec.defaultBackend (default 12) ...
 	DefBackOnlyPct int      // ... and of those, the share that declares nothing else (default 30)
 	CaseDupAnn     bool     // some annotation keys are declared twice, differing by case only
+	SecretNames    []string // names of the tls secrets of every namespace (default t1..t3)
 	PrefixDupAnn   bool     // some keys are declared with the 2nd and the 3rd annotation prefix (other values) instead of the main one
 	SingleDefBack  bool     // at most one ingress with spec.defaultBackend (the default host then has one owner)
 	SparseOK       bool     // focused worlds may be sparse
@@ -364,8 +365,15 @@ func (g *G) genIngress(ns, name string, created int) *world.Obj {
 	return o
 }
 
+func (g *G) tlsSecretNames() []string {
+	if len(g.P.SecretNames) > 0 {
+		return g.P.SecretNames
+	}
+	return []string{"t1", "t2", "t3"}
+}
+
 func (g *G) secretNames() []string {
-	names := []string{"t1", "t2", "t3"}
+	names := append([]string{}, g.tlsSecretNames()...)
 	if g.P.MissingRefs {
 		names = append(names, "missing")
 	}
@@ -522,7 +530,7 @@ func (g *G) genWorld() {
 			}
 		}
 		if g.P.TLS {
-			for i, n := range []string{"t1", "t2", "t3"} {
+			for i, n := range g.tlsSecretNames() {
 				if g.P.MissingRefs && g.chance("nosecret", 10) {
 					continue
 				}
@@ -612,7 +620,7 @@ func (g *G) genOp(kinds []string) (world.Op, bool) {
 			op = world.Op{Op: "update", Obj: g.mutateEndpoints(cur, svc)}
 		}
 	case world.KSecret:
-		ns, name := g.pick("secns", g.P.NS), g.pick("secname", []string{"t1", "t2", "t3"})
+		ns, name := g.pick("secns", g.P.NS), g.pick("secname", g.tlsSecretNames())
 		cur := g.W.Get(kind, ns+"/"+name)
 		switch {
 		case cur == nil:
